@@ -121,6 +121,8 @@ REVERTS = {
     "revert-include-guard-collision": ("867c345", ["C10"]),
     "revert-enum-member-digit-split": ("3c754e2", ["C15"]),
     "revert-import-path-nul": ("519e959", ["C09"]),
+    "revert-doc-comment-escaping": ("db7316f", ["C10"]),
+    "revert-py-transitive-import": ("7fa578d", ["C10"]),
 }
 for _n, (_c, _p) in REVERTS.items():
     CATALOGUE[_n] = (_p, [("@revert", _c, "")], f"revert of fix {_c}")
